@@ -33,3 +33,26 @@ def w_F1(gi):
 
 
 WITNESS = {"F1": w_F1}
+
+
+def w_F2(gi):
+    g = Gram(gi)
+    X, Y, Z = 120, 121, 122
+    a = g.action(g.seq([g.un("star", g.lit([X])), g.label(g.lit([Y]))]))
+    s = g.choice([g.seq([g.ref(2), g.lit([Z])]), g.seq([g.lit([X]), g.ref(2)])])
+    g.rules = [s, a]
+    g.disp = ["", ""]
+    g.compute_args()
+    return g, [[X, X, Y]], dict(memo=True), ("val", "event-notallowed")
+
+
+def w_F3(gi):
+    g = Gram(gi)
+    s = g.seq([g.un("star", g.un("opt", g.lit([F.A]))), g.lit([F.B])])
+    g.rules = [s]
+    g.disp = [""]
+    g.compute_args()
+    return g, [[F.A, F.B]], dict(memo=True, maxexpr=1000), ("timeout", "oom")
+
+
+WITNESS.update({"F2": w_F2, "F3": w_F3})
